@@ -64,6 +64,92 @@ type TermCtx struct {
 	next  int
 	True  *Term
 	False *Term
+	// facts of the current path (unsigned bounds implied by the path condition); they make the
+	// simplifier context dependent, so they are reset whenever a new path starts
+	ubm map[*Term]uint64
+	lbm map[*Term]uint64
+}
+
+// ResetFacts forgets the path facts.
+func (c *TermCtx) ResetFacts() {
+	c.ubm = map[*Term]uint64{}
+	c.lbm = map[*Term]uint64{}
+}
+
+// Learn records the unsigned bounds a path-condition literal implies.
+func (c *TermCtx) Learn(t *Term) {
+	if c.ubm == nil {
+		c.ResetFacts()
+	}
+	setUB := func(a *Term, v uint64) {
+		if a.IsConst() {
+			return
+		}
+		if old, ok := c.ubm[a]; !ok || v < old {
+			c.ubm[a] = v
+		}
+	}
+	setLB := func(a *Term, v uint64) {
+		if a.IsConst() {
+			return
+		}
+		if old, ok := c.lbm[a]; !ok || v > old {
+			c.lbm[a] = v
+		}
+	}
+	switch t.Op {
+	case OpBAnd:
+		c.Learn(t.Args[0])
+		c.Learn(t.Args[1])
+	case OpUlt:
+		a, b := t.Args[0], t.Args[1]
+		if b.IsConst() && b.Val > 0 {
+			setUB(a, b.Val-1)
+		}
+		if a.IsConst() && a.Val < mask(a.W) {
+			setLB(b, a.Val+1)
+		}
+	case OpEq:
+		a, b := t.Args[0], t.Args[1]
+		if a.W == 0 {
+			return
+		}
+		if a.IsConst() {
+			a, b = b, a
+		}
+		if b.IsConst() {
+			setUB(a, b.Val)
+			setLB(a, b.Val)
+		}
+	case OpBNot:
+		u := t.Args[0]
+		if u.Op == OpUlt {
+			a, b := u.Args[0], u.Args[1]
+			if b.IsConst() { // not (a < K)  =>  a >= K
+				setLB(a, b.Val)
+			}
+			if a.IsConst() { // not (K < b)  =>  b <= K
+				setUB(b, a.Val)
+			}
+		}
+	}
+}
+
+// lbound returns a cheap unsigned lower bound of t.
+func (c *TermCtx) lbound(t *Term) uint64 {
+	var r uint64
+	switch t.Op {
+	case OpConst:
+		return t.Val
+	case OpZExt:
+		r = c.lbound(t.Args[0])
+	}
+	if c.lbm != nil {
+		if v, ok := c.lbm[t]; ok && v > r {
+			r = v
+		}
+	}
+	return r
 }
 
 func NewTermCtx() *TermCtx {
@@ -143,15 +229,26 @@ func (c *TermCtx) Var(name string, w int) *Term {
 }
 
 // ubound returns a cheap unsigned upper bound of t.
-func ubound(t *Term) uint64 {
-	return uboundD(t, 12)
+func (c *TermCtx) ubound(t *Term) uint64 {
+	return c.uboundD(t, 12)
 }
 
-func uboundD(t *Term, d int) uint64 {
+func (c *TermCtx) uboundD(t *Term, d int) uint64 {
+	r := c.uboundS(t, d)
+	if c.ubm != nil {
+		if v, ok := c.ubm[t]; ok && v < r {
+			r = v
+		}
+	}
+	return r
+}
+
+func (c *TermCtx) uboundS(t *Term, d int) uint64 {
 	m := mask(t.W)
 	if d == 0 {
 		return m
 	}
+	uboundD := c.uboundD
 	switch t.Op {
 	case OpConst:
 		return t.Val
@@ -239,8 +336,8 @@ func uboundD(t *Term, d int) uint64 {
 }
 
 // nonneg reports whether t is certainly non-negative as a signed number.
-func nonneg(t *Term) bool {
-	return ubound(t) <= mask(t.W-1)
+func (c *TermCtx) nonneg(t *Term) bool {
+	return c.ubound(t) <= mask(t.W-1)
 }
 
 func (c *TermCtx) bin(op Op, a, b *Term) *Term {
@@ -366,7 +463,7 @@ func (c *TermCtx) bin(op Op, a, b *Term) *Term {
 			if b.Val == m {
 				return a
 			}
-			if ubound(a) <= b.Val && (b.Val&(b.Val+1)) == 0 {
+			if c.ubound(a) <= b.Val && (b.Val&(b.Val+1)) == 0 {
 				return a
 			}
 		}
@@ -520,7 +617,7 @@ func (c *TermCtx) SExt(a *Term, w int) *Term {
 	if a.IsConst() {
 		return c.Const(w, uint64(a.SVal()))
 	}
-	if nonneg(a) {
+	if c.nonneg(a) {
 		return c.ZExt(a, w)
 	}
 	if a.Op == OpIte && (a.Args[1].IsConst() || a.Args[2].IsConst()) {
@@ -658,7 +755,7 @@ func (c *TermCtx) Eq(a, b *Term) *Term {
 		a, b = b, a
 	}
 	if b.IsConst() {
-		if b.Val > ubound(a) {
+		if b.Val > c.ubound(a) || b.Val < c.lbound(a) {
 			return c.False
 		}
 		switch a.Op {
@@ -702,8 +799,11 @@ func (c *TermCtx) Ult(a, b *Term) *Term {
 		if b.Val == 0 {
 			return c.False
 		}
-		if ubound(a) < b.Val {
+		if c.ubound(a) < b.Val {
 			return c.True
+		}
+		if c.lbound(a) >= b.Val {
+			return c.False
 		}
 		if a.Op == OpZExt && b.Val <= mask(a.Args[0].W) {
 			in := a.Args[0]
@@ -714,8 +814,11 @@ func (c *TermCtx) Ult(a, b *Term) *Term {
 		}
 	}
 	if a.IsConst() {
-		if ubound(b) <= a.Val {
+		if c.ubound(b) <= a.Val {
 			return c.False
+		}
+		if c.lbound(b) > a.Val {
+			return c.True
 		}
 		if a.Val == 0 {
 			return c.BNot(c.Eq(b, a))
@@ -743,7 +846,7 @@ func (c *TermCtx) Slt(a, b *Term) *Term {
 	if a == b {
 		return c.False
 	}
-	if nonneg(a) && nonneg(b) {
+	if c.nonneg(a) && c.nonneg(b) {
 		return c.Ult(a, b)
 	}
 	if b.IsConst() && a.Op == OpIte && (a.Args[1].IsConst() || a.Args[2].IsConst()) {
@@ -753,10 +856,10 @@ func (c *TermCtx) Slt(a, b *Term) *Term {
 		return c.Ite(b.Args[0], c.Slt(a, b.Args[1]), c.Slt(a, b.Args[2]))
 	}
 	// sext(x) < const  (e.g. int(int32 v) comparisons)
-	if nonneg(a) && b.IsConst() && b.SVal() <= 0 {
+	if c.nonneg(a) && b.IsConst() && b.SVal() <= 0 {
 		return c.False
 	}
-	if nonneg(b) && a.IsConst() && a.SVal() < 0 {
+	if c.nonneg(b) && a.IsConst() && a.SVal() < 0 {
 		return c.True
 	}
 	return c.mk(&Term{Op: OpSlt, Args: []*Term{a, b}})
